@@ -16,10 +16,13 @@ import (
 type RefDigests struct {
 	Start map[string]string   `json:"start"` // "n/h"
 	After map[string][]string `json:"after"` // "n/h" -> digest after i-th input logged at height h
+	// own messages emitted but not yet processed at the same points (what a replay must re-emit)
+	StartOwn map[string][]string   `json:"start_own"`
+	AfterOwn map[string][][]string `json:"after_own"`
 }
 
 func newRef() *RefDigests {
-	return &RefDigests{Start: map[string]string{}, After: map[string][]string{}}
+	return &RefDigests{Start: map[string]string{}, After: map[string][]string{}, StartOwn: map[string][]string{}, AfterOwn: map[string][][]string{}}
 }
 
 func (nt *Net) pname(h []byte) string {
@@ -53,8 +56,10 @@ func (m *Monitors) recordDigest(n *Node, hBefore int64) {
 	k := fmt.Sprintf("%d/%d", n.Idx, hBefore)
 	r := m.ref()
 	r.After[k] = append(r.After[k], d)
+	r.AfterOwn[k] = append(r.AfterOwn[k], ownDesc(n))
 	if h := n.cs.VerifRoundState().Height; h != hBefore {
 		r.Start[fmt.Sprintf("%d/%d", n.Idx, h)] = d
+		r.StartOwn[fmt.Sprintf("%d/%d", n.Idx, h)] = ownDesc(n)
 	}
 }
 
@@ -64,6 +69,7 @@ func (m *Monitors) noteStart(n *Node) {
 	}
 	if n.restarts == 0 {
 		m.ref().Start[fmt.Sprintf("%d/%d", n.Idx, n.cs.VerifRoundState().Height)] = m.Digest(n)
+		m.ref().StartOwn[fmt.Sprintf("%d/%d", n.Idx, n.cs.VerifRoundState().Height)] = ownDesc(n)
 	}
 }
 
@@ -164,6 +170,29 @@ func (m *Monitors) onRestart(n *Node) {
 		return
 	}
 	m.compared++
+	// own proposals/votes that were signed but not yet processed at that point must be
+	// emitted again by the replay (they were never logged, only the signer file knows them)
+	var wantOwn []string
+	if cnt == 0 || !found {
+		wantOwn = nt.Ref.StartOwn[k]
+	} else if lst := nt.Ref.AfterOwn[k]; cnt <= len(lst) {
+		wantOwn = lst[cnt-1]
+	}
+	have2 := map[string]int{}
+	for _, d := range ownDesc(n) {
+		have2[d]++
+	}
+	for _, w := range wantOwn {
+		if strings.HasPrefix(w, "proposal") || strings.HasPrefix(w, "part") {
+			continue // a proposal cannot be rebuilt (new block, same HRS): documented loss, the signer forbids a second one
+		}
+		if have2[w] == 0 {
+			m.report("C07", map[string]string{"kind": "own-vote-lost-by-replay", "site": "catchupReplay"},
+				fmt.Sprintf("node %d killed at %q: before the crash it had signed %q (not yet processed, hence not in the WAL); after restart and replay that vote is not emitted again, so it is never cast", n.Idx, n.diedAt, w))
+		} else {
+			have2[w]--
+		}
+	}
 	if got != want {
 		m.report("C07", map[string]string{"kind": "replay-state-differs", "site": "catchupReplay", "died": siteClass(n.diedAt)},
 			fmt.Sprintf("node %d killed at %q and restarted: round state after WAL replay differs from the state when the last logged input (#%d of height %d) had been processed.\n   after replay: %s\n   expected:     %s", n.Idx, n.diedAt, cnt, stH, got, want))
@@ -219,4 +248,14 @@ func writeCounts(nt *Net) string {
 		parts = append(parts, fmt.Sprintf("%d=%d", n.Idx, n.writes))
 	}
 	return strings.Join(parts, ",")
+}
+
+// ownDesc describes the own messages node n has emitted but not yet processed.
+func ownDesc(n *Node) []string {
+	out := make([]string, 0, len(n.ownMeta))
+	for _, e := range n.ownMeta {
+		out = append(out, fmt.Sprintf("%s h%d r%d %s", e.Kind, e.Height, e.Round, e.Block))
+	}
+	sort.Strings(out)
+	return out
 }
